@@ -132,6 +132,8 @@ def run_native(scenario, flavour=None, timeout=120, keep=False):
     try:
         shim = scenario.get("shim")
         steps = [dict(s) for s in scenario["steps"]]
+        if any(s_.get("op") == "par" for s_ in steps):
+            return _run_par(exe, steps, root, timeout)
         if not shim:
             rc, out, err = _exec(exe, {"steps": steps, "watchdog_s": scenario.get("watchdog_s", 12)}, root, timeout=timeout)
             obs, final = _parse_obs(out)
@@ -177,6 +179,111 @@ def run_native(scenario, flavour=None, timeout=120, keep=False):
         if not keep:
             import shutil
             shutil.rmtree(root, ignore_errors=True)
+
+
+def _run_par(exe, steps, root, timeout):
+    """Scenario with one concurrent section: the steps before it run in one process, every member of the
+    section in its own process under the gate shim (the model's schedule is enforced system call by system
+    call), the steps after it in a fresh process."""
+    import struct
+    import time as _t
+    k = next(i for i, s_ in enumerate(steps) if s_.get("op") == "par")
+    par = steps[k]
+    obs = []
+    if k > 0:
+        rc, out, err = _exec(exe, {"steps": steps[:k]}, root, timeout=timeout)
+        obs, _ = _parse_obs(out)
+        while len(obs) < k:
+            obs.append({"outcome": "missing"})
+    sched = list(par.get("sched", []))
+    n = len(par["procs"])
+    ctl = tempfile.NamedTemporaryFile(prefix="gate-", suffix=".ctl", dir=BUILD, delete=False)
+    files = []
+    try:
+        words = [0] * 16384
+        words[0], words[1], words[2], words[3] = 0, len(sched), 0, -1
+        for i, t in enumerate(sched):
+            words[16 + i] = t
+        ctl.write(struct.pack("<%di" % len(words), *words))
+        ctl.flush()
+        procs = []
+        for i, psteps in enumerate(par["procs"]):
+            ps = _subst_refs([dict(x) for x in psteps], obs)
+            for x in ps:
+                x.pop("arm", None)
+            if ps:
+                ps[0]["arm"] = True
+            env = dict(os.environ)
+            env["LD_PRELOAD"] = shim_path()
+            env["CACACHE_SHIM_ROOT"] = root
+            env["CACACHE_SHIM_SPEC"] = "gate %d %s" % (i, ctl.name)
+            fh = tempfile.NamedTemporaryFile("w", suffix=".json", delete=False, dir=BUILD)
+            json.dump({"steps": ps, "watchdog_s": 40}, fh)
+            fh.close()
+            files.append(fh.name)
+            procs.append(subprocess.Popen([exe, fh.name, "--root", root], stdout=subprocess.PIPE, stderr=subprocess.PIPE,
+                                          cwd=tempfile.gettempdir(), env=env))
+        import mmap as _mmap
+        fd = os.open(ctl.name, os.O_RDWR)
+        mm = _mmap.mmap(fd, 65536)
+        t0 = _t.time()
+        outs = [None] * n
+        pending = set(range(n))
+        while pending and _t.time() - t0 < 60:
+            for i in list(pending):
+                if procs[i].poll() is not None:
+                    outs[i] = procs[i].communicate()
+                    pending.discard(i)
+                    # a process that died while holding the turn must not block the others
+                    mm[(4 + i) * 4:(4 + i) * 4 + 4] = struct.pack("<i", 1)
+                    if struct.unpack("<i", mm[12:16])[0] == i:
+                        mm[12:16] = struct.pack("<i", -1)
+                        pos = struct.unpack("<i", mm[0:4])[0]
+                        mm[0:4] = struct.pack("<i", pos + 1)
+            _t.sleep(0.002)
+        hung = bool(pending)
+        for i in pending:
+            procs[i].kill()
+            outs[i] = procs[i].communicate()
+        diverged = struct.unpack("<i", mm[8:12])[0]
+        consumed = struct.unpack("<i", mm[0:4])[0]
+        mm.close()
+        os.close(fd)
+        par_obs = []
+        for i in range(n):
+            o, _ = _parse_obs(outs[i][0])
+            if procs[i].returncode not in (0, 3) and not o:
+                o = [{"outcome": "abort", "returncode": procs[i].returncode, "stderr": outs[i][1].decode("utf-8", "replace")[-300:]}]
+            par_obs.append(o)
+        ob = {"step": k, "outcome": "hang" if hung else "ok", "value": {"par": par_obs}}
+        if os.environ.get("CACACHE_SHIM_DEBUG"):
+            lines = []
+            for i in range(n):
+                lines += [ln for ln in outs[i][1].decode("utf-8", "replace").splitlines() if ln.startswith("gate:")]
+            ob["gate_log"] = lines
+        if diverged or consumed < len(sched):
+            ob["diverged"] = {"flags": diverged, "slots_used": consumed, "slots": len(sched)}
+        obs = obs[:k] + [ob]
+    finally:
+        for f in files:
+            try:
+                os.unlink(f)
+            except OSError:
+                pass
+        try:
+            os.unlink(ctl.name)
+        except OSError:
+            pass
+    rest = _subst_refs(steps, obs)
+    post = [x for x in rest[k + 1:]]
+    for x in post:
+        x.pop("arm", None)
+    rc2, out2, err2 = _exec(exe, {"steps": post}, root, timeout=timeout)
+    obs2, final = _parse_obs(out2)
+    for o in obs2:
+        if "step" in o:
+            o["step"] += k + 1
+    return obs + obs2, final
 
 
 # ---------------------------------------------------------------------------
@@ -273,6 +380,9 @@ def render_err(e, cz=None):
 
 
 def render_outcome(out, cz):
+    from .scn import ParResult
+    if out.kind == "ok" and isinstance(out.value, ParResult):
+        return {"outcome": "ok", "value": {"par": [[render_outcome(st.outcome, cz) for st in lg] for lg in out.value.logs]}}
     if out.kind == "ok":
         return {"outcome": "ok", "value": render_value(out.value, cz)}
     if out.kind == "err":
@@ -300,6 +410,16 @@ def obs_equal(pred, obs, loose_io_kind=False):
     if pred["outcome"] != "ok":
         return True
     pv, ov = pred["value"], obs.get("value", {})
+    if "par" in pv:
+        if obs.get("diverged"):
+            return False
+        op_ = ov.get("par")
+        if op_ is None or len(op_) != len(pv["par"]):
+            return False
+        for lp, lo in zip(pv["par"], op_):
+            if len(lp) != len(lo) or not all(obs_equal(a, b, loose_io_kind) for a, b in zip(lp, lo)):
+                return False
+        return True
     if "handle" in pv:
         return "handle" in ov
     if "bytes" in pv:
